@@ -1,7 +1,7 @@
 /-
 Props/C06.lean — each output element depends only on its own source, path index and observer.
 -/
-import MagpyVerif.Lemmas.Level2
+import MagpyVerif.Lemmas.Level2Compose
 namespace MagpyVerif.C06
 open MagpyVerif MagpyVerif.Level2
 variable {G V : Type}
@@ -29,5 +29,56 @@ theorem pixels_independent [Group G] [AddCommGroup V] [DistribMulAction G V] [BE
     (poso (ks1 ++ ks2) m).map (level1 s m) =
       (poso ks1 m).map (level1 s m) ++ (poso ks2 m).map (level1 s m) := by
   rw [poso_append, List.map_append]
+
+
+section refines
+variable [Group G] [AddCommGroup V] [DistribMulAction G V] [BEq G] [LawfulBEq G]
+
+/-- **the whole pipeline**: for every number, order and nesting of sources and collections, every mix
+of path lengths and every mix of pixel shapes, the tensor the marshalling code assembles
+(`Model/Level2.tensor`: per-leaf evaluation through the leaf's own frame at its own clamped pose,
+the slice-sum-and-delete collection loop, the three sensor back-rotation code paths, the handedness
+flip, the split at the cumulative pixel indices) is, element by element, the specification: entry
+`[e][m][k][j]` is the sum over the leaves of entry `e`, each at its own pose `m`, evaluated at
+sensor `k`'s `j`-th pixel at the sensor's pose `m`, and expressed in that sensor's frame. No other
+source, path index, sensor or pixel enters any element. -/
+theorem level2_refines (flipX : V → V) (entries : List (Entry G V)) (sensors : List (Sens G V))
+    (he : ∀ e ∈ entries, e.leaves ≠ []) (hs : ∀ k ∈ sensors, k.WF) :
+    tensor flipX entries sensors = specTensor flipX entries sensors :=
+  tensor_eq_spec flipX entries sensors he hs
+
+/-- one output element, spelled out -/
+theorem output_element (flipX : V → V) (entries : List (Entry G V)) (sensors : List (Sens G V))
+    (he : ∀ e ∈ entries, e.leaves ≠ []) (hs : ∀ k ∈ sensors, k.WF)
+    (i m n j : Nat) (e : Entry G V) (k : Sens G V) (r : G) (p px : V)
+    (hi : entries[i]? = some e) (hm : m < pathLen (entries.flatMap Entry.leaves) sensors)
+    (hn : sensors[n]? = some k) (hr : clampGet k.ori m = some r) (hp : clampGet k.pos m = some p)
+    (hj : k.pixels[j]? = some px) :
+    ((((tensor flipX entries sensors)[i]?.bind (·[m]?)).bind (·[n]?)).bind (·[j]?)) =
+      some (let v := r⁻¹ • ((e.leaves.map fun s => level1 s m (r • px + p)).sum)
+            if k.left then flipX v else v) := by
+  rw [level2_refines flipX entries sensors he hs]
+  unfold specTensor
+  simp only [List.getElem?_map, hi, Option.map_some, Option.bind_some, List.getElem?_range hm, hn]
+  simp only [pixPos, hr, hp, List.getElem?_map, hj, Option.map_some, specValue, sensT]
+end refines
+
+-- non-vacuity: the hypotheses of `level2_refines` are met by a concrete scene (one bare source, one
+-- collection of two, two sensors with different pixel counts)
+example :
+    (∀ e ∈ ([.leaf { pos := [⟨1, 0, 0⟩], ori := [1], F := fun x => x },
+       .coll [.leaf { pos := [⟨0, 1, 0⟩, ⟨0, 2, 0⟩], ori := [1, 1], F := fun x => x + x },
+              .leaf { pos := [⟨0, 0, 1⟩], ori := [1], F := fun _ => ⟨1, 1, 1⟩ }]] : List (Entry (M3 Int) (V3 Int))),
+        e.leaves ≠ []) ∧
+    (∀ k ∈ ([{ pos := [⟨5, 0, 0⟩], ori := [1], pixels := [⟨0, 0, 0⟩, ⟨1, 0, 0⟩], pixShape := [2], left := true },
+       { pos := [⟨0, 5, 0⟩], ori := [1], pixels := [⟨0, 0, 0⟩], pixShape := [1], left := false }] : List (Sens (M3 Int) (V3 Int))),
+        k.ori ≠ [] ∧ k.pos.length = k.ori.length ∧ k.pixels.length = pixNum k) := by
+  constructor
+  · intro e he
+    simp only [List.mem_cons, List.not_mem_nil, or_false] at he
+    rcases he with rfl | rfl <;> simp [Entry.leaves]
+  · intro k hk
+    simp only [List.mem_cons, List.not_mem_nil, or_false] at hk
+    rcases hk with rfl | rfl <;> simp [pixNum]
 
 end MagpyVerif.C06
